@@ -131,6 +131,10 @@ pub trait Ctx {
     fn compile<'a>(&'a self, b: &Value) -> Result<Result<Box<dyn Compiled + 'a>, CircV>, String>;
     /// C15 extra entry points: (entry point name, outcome) — every call under `guarded`
     fn extra_entry_points(&self, b: &Value) -> Result<Vec<(String, CircV)>, String>;
+    /// C15: `verify_fri_circuit` called directly with malformed arguments (label, outcome)
+    fn fri_arg_mutants(&self, _b: &Value) -> Result<Vec<(String, CircV)>, String> {
+        Ok(vec![])
+    }
 }
 
 pub trait Shape: Send + Sync {
@@ -163,6 +167,11 @@ pub fn norm_site(msg: &str) -> String {
         let rest = &site[i + "/registry/src/".len()..];
         if let Some(j) = rest.find('/') {
             return rest[j + 1..].to_string();
+        }
+    }
+    if let Some(i) = site.find("/library/") {
+        if site.starts_with("/rustc/") {
+            return format!("rustc{}", &site[i..]);
         }
     }
     if site.contains("c01/airs.rs") {
